@@ -165,6 +165,8 @@ def family(name, tier, seed):
         raise KeyError(name)
     if name == "shutdown" and not quick:
         cap_total = 800          # the richest state spaces per configuration
+    if name == "flat" and not quick:
+        cap_total = 700          # four free jobs x horizon 3: about 10^5 states per configuration
     if len(out) > cap_total:
         rng.shuffle(out)
         out = out[:cap_total]
